@@ -145,7 +145,8 @@ static void mcount_get_struct_arg(struct mcount_arg_context *ctx, struct uftrace
 		ptr += sizeof(long);
 	}
 
-	if (spec->stack_ofs > 0) {
+	/* reg_idx and stack_ofs share storage: only stack specs have an offset */
+	if (spec->type == ARG_TYPE_STACK && spec->stack_ofs > 0) {
 		unsigned long *addr = ctx->stack_base + spec->stack_ofs;
 
 		/*
